@@ -84,6 +84,59 @@ Theorem C08_histories_agree : forall eps h h',
 Proof. exact histories_agree. Qed.
 Print Assumptions C08_histories_agree.
 
+(* --- AddOrUpdateNode / NodeInfo.SetNode: the ledger recomputed from the held tasks --- *)
+Theorem C08_set_node_recomputes_ledger : forall T n N o,
+  NodeRep T n N -> sc (no_alloc o) <> None -> (forall i t, T !! i = Some t -> task_wf t) ->
+  NodeRep T n (node_set N o) /\ n_has_node (node_set N o) = true /\ n_alloc (node_set N o) = no_alloc o.
+Proof. exact node_set_rep. Qed.
+Print Assumptions C08_set_node_recomputes_ledger.
+
+Theorem C08_add_or_update_node_keeps_inv : forall c o,
+  Rep c -> sc (no_alloc o) <> None ->
+  Rep (add_or_update_node c o) /\
+  exists N, c_nodes (add_or_update_node c o) !! no_id o = Some N /\ n_has_node N = true /\ n_alloc N = no_alloc o.
+Proof. exact add_or_update_node_inv. Qed.
+Print Assumptions C08_add_or_update_node_keeps_inv.
+
+(* --- converges_to_final_objects (main): all histories of pod / node (incl. remove and
+       re-add) / PodGroup / queue notifications, any cross-object order --- *)
+Theorem C08_converges_to_final_objects : forall eps h h',
+  hist_ok eps empty_cache h -> hist_ok eps empty_cache h' ->
+  o_pods (final_objects h) = o_pods (final_objects h') ->
+  o_nodes (final_objects h) = o_nodes (final_objects h') ->
+  let c := run eps empty_cache h in let c' := run eps empty_cache h' in
+  c_heap c = c_heap c' /\
+  (forall j cj, c_jobs c !! j = Some cj ->
+     (j_tasks (cj_job cj) <> ∅ -> is_Some (c_jobs c' !! j)) /\
+     (forall cj', c_jobs c' !! j = Some cj' -> job_equiv cj cj')) /\
+  (forall n N, c_nodes c !! n = Some N ->
+     (n_tasks N <> ∅ \/ n_has_node N = true -> is_Some (c_nodes c' !! n)) /\
+     (forall N', c_nodes c' !! n = Some N' ->
+        n_tasks N = n_tasks N' /\ n_has_node N = n_has_node N' /\
+        (n_has_node N = true ->
+         res_eqv (n_alloc N) (n_alloc N') /\ res_eqv (n_idle N) (n_idle N') /\ res_eqv (n_used N) (n_used N') /\
+         res_eqv (n_releasing N) (n_releasing N') /\ res_eqv (n_pipelined N) (n_pipelined N')))).
+Proof. exact converges_to_final_objects. Qed.
+Print Assumptions C08_converges_to_final_objects.
+
+(* --- failed binds / evictions are repaired by resynchronisation --- *)
+Theorem C08_resync_repairs : forall eps c j st p,
+  Rep c -> c_heap c !! t_id st = Some st -> t_job st = j -> j <> no_job ->
+  api_pod c (t_id st) = Some p -> p_id p = t_id st -> pod_ok p ->
+  let c' := fst (sync_task eps c j st) in
+  Rep c' /\ snd (sync_task eps c j st) = true /\
+  c_heap c' = <[t_id st := task_of_pod eps p]> (c_heap c).
+Proof. exact sync_task_repairs. Qed.
+Print Assumptions C08_resync_repairs.
+
+Theorem C08_resync_pod_gone : forall eps c j st,
+  Rep c -> c_heap c !! t_id st = Some st -> t_job st = j -> j <> no_job ->
+  api_pod c (t_id st) = None ->
+  let c' := fst (sync_task eps c j st) in
+  Rep c' /\ snd (sync_task eps c j st) = true /\ c_heap c' = delete (t_id st) (c_heap c).
+Proof. exact sync_task_gone. Qed.
+Print Assumptions C08_resync_pod_gone.
+
 (* --- the view is a function of the held tasks and the node objects --- *)
 Theorem C08_view_determined : forall c c',
   Rep c -> Rep c' -> c_heap c = c_heap c' ->
@@ -122,3 +175,16 @@ Print Assumptions C08_inv_empty.
 Example C08_pod1_ok : pod_ok pod1.
 Proof. exact pod1_ok. Qed.
 Print Assumptions C08_pod1_ok.
+
+(* the hypotheses of C08_converges_to_final_objects are met by the F4 history
+   together with the canonical feed of its final objects (= build) *)
+Example C08_f4_hist_ok :
+  hist_ok eps0 empty_cache f4_history /\ hist_ok eps0 empty_cache (build_events (final_objects f4_history)).
+Proof. exact f4_hist_ok. Qed.
+Print Assumptions C08_f4_hist_ok.
+
+Example C08_f4_same_final :
+  o_pods (final_objects f4_history) = o_pods (final_objects (build_events (final_objects f4_history))) /\
+  o_nodes (final_objects f4_history) = o_nodes (final_objects (build_events (final_objects f4_history))).
+Proof. exact f4_same_final. Qed.
+Print Assumptions C08_f4_same_final.
